@@ -30,7 +30,7 @@ def cases(draw):
            "expiry": draw(st.sampled_from([None, None, 0, 0.5, 2.0])), "h2": h2, "n_origins": draw(st.integers(1, 3))}
     steps = []
     for _ in range(draw(st.integers(2, 30))):
-        k = draw(st.sampled_from(["request", "request", "request", "open", "open", "close", "close", "advance", "server_close"]))
+        k = draw(st.sampled_from(["request", "request", "request", "open", "open", "close", "close", "advance", "server_close", "server_ping"]))
         if k in ("request", "open"):
             steps.append([k, draw(st.integers(0, cfg["n_origins"] - 1))])
         elif k == "close":
@@ -304,6 +304,20 @@ class Runner:
             self.world.clock.advance(step[1])
             if m.idle():
                 self.tags.add("advance-with-idle")
+            return
+        elif kind == "server_ping":
+            # HTTP/2: the server says something on the idle connection that does not end it (a PING): unread bytes are pending on the socket, the
+            # connection is as reusable as before
+            idle = [pid for pid in m.idle() if self.world.pipes[pid].open and not m.pipes[pid]["server_closed"]]
+            if not idle or not self.case["cfg"]["h2"]:
+                return
+            pid = idle[step[1] % len(idle)]
+            h2 = getattr(self.world.pipes[pid].peer.leaf(), "h2", None)
+            if h2 is None:
+                return
+            h2._action({"ping": True})
+            h2.pump()
+            self.tags.add("server-ping-on-idle")
             return
         elif kind == "server_close":
             idle = m.idle()
